@@ -1259,8 +1259,9 @@ func (rl *Shell) doLowercaseVersion() {
 		keys = []rune{inputrc.Demeta(keys[0])}
 	}
 
-	// Undefined behavior if the key is already lowercase.
-	if unicode.IsLower(keys[0]) {
+	// Undefined behavior if the key is already lowercase. Likewise if it
+	// has no lowercase version: feeding it back would run us again, forever.
+	if unicode.ToLower(keys[0]) == keys[0] {
 		return
 	}
 
